@@ -8,18 +8,19 @@
 #include <sys/stat.h>
 #include <unistd.h>
 extern "C" int harness_main(void);
+static FILE* g_proto;
 static std::vector<long> g_vec; static size_t g_pos; static int g_fail; static int g_frozen; static long g_events;
 extern "C" {
 long verif_nondet(const char* name, long lo, long hi) {
   long v = g_pos < g_vec.size() ? g_vec[g_pos] : lo; g_pos++;
-  if (v < lo || v > hi) { printf("VECTOR-OUT-OF-RANGE %s\n", name); fflush(stdout); _exit(78); }
+  if (v < lo || v > hi) { fprintf(g_proto, "VECTOR-OUT-OF-RANGE %s\n", name); fflush(g_proto); _exit(78); }
   return v;
 }
 long verif_concretize(long v) { return v; }
-void __CPROVER_assume(bool c) { if (!c) { printf("ASSUME-FALSE\n"); fflush(stdout); _exit(77); } }
-void __CPROVER_assert(bool c, const char* m) { if (!c) { printf("ASSERT-FAIL %s\n", m); g_fail++; } }
-void verif_reach(const char* l) { printf("REACH %s\n", l); }
-void verif_obs(long v) { printf("OBS %ld\n", v); }
+void __CPROVER_assume(bool c) { if (!c) { fprintf(g_proto, "ASSUME-FALSE\n"); fflush(g_proto); _exit(77); } }
+void __CPROVER_assert(bool c, const char* m) { if (!c) { fprintf(g_proto, "ASSERT-FAIL %s\n", m); g_fail++; } }
+void verif_reach(const char* l) { fprintf(g_proto, "REACH %s\n", l); }
+void verif_obs(long v) { fprintf(g_proto, "OBS %ld\n", v); }
 void verif_note(const char*) {}
 void ir2c_global_ctors(void) {}
 unsigned long verif_file_size(const char* p) { struct stat st; if (stat(p, &st) != 0) return (unsigned long)-1; return st.st_size; }
@@ -40,7 +41,7 @@ static std::map<FILE*, WStream> g_streams;
 extern "C" {
 FILE* __real_fopen(const char*, const char*); int __real_fclose(FILE*); size_t __real_fwrite(const void*, size_t, size_t, FILE*); int __real_fflush(FILE*);
 int __real_setvbuf(FILE*, char*, int, size_t); long __real_ftell(FILE*); int __real_fseek(FILE*, long, int); int __real_unlink(const char*); int __real_rename(const char*, const char*);
-int __real_truncate(const char*, off_t); int __real_vfprintf(FILE*, const char*, va_list);
+int __real_truncate(const char*, off_t);
 static void wflush(FILE* f, WStream& w, size_t upto = std::string::npos) {
   if (w.buf.empty()) return;
   std::string out = upto == std::string::npos ? w.buf : w.buf.substr(0, upto);
@@ -75,7 +76,7 @@ int __wrap_fprintf(FILE* f, const char* fmt, ...) {
   va_list ap; va_start(ap, fmt);
   std::map<FILE*, WStream>::iterator it = g_streams.find(f);
   int r;
-  if (it == g_streams.end()) r = __real_vfprintf(f, fmt, ap);
+  if (it == g_streams.end()) r = vfprintf(f, fmt, ap);
   else { char tmp[1 << 16]; r = vsnprintf(tmp, sizeof tmp, fmt, ap); if (r > 0) wappend(f, it->second, tmp, (size_t)r < sizeof tmp ? r : sizeof tmp - 1); }
   va_end(ap); return r;
 }
@@ -96,12 +97,17 @@ int __wrap_unlink(const char* p) { struct stat st; if (stat(p, &st) != 0) return
 int __wrap_rename(const char* a, const char* b) { struct stat st; if (stat(a, &st) != 0) return __real_rename(a, b); if (vfs_event()) return 0; return __real_rename(a, b); }
 int __wrap_truncate(const char* p, off_t n) { struct stat st; if (stat(p, &st) != 0) return __real_truncate(p, n); if (vfs_event()) return 0; return __real_truncate(p, n); }
 void verif_expect_fatal(int) {}
+static FILE* g_cap;
+void verif_stdout_capture(void) { fflush(stdout); if (!g_cap) g_cap = tmpfile(); dup2(fileno(g_cap), 1); }
+long verif_stdout_len(void) { fflush(stdout); if (!g_cap) return 0; struct stat st; fstat(fileno(g_cap), &st); return st.st_size; }
+long verif_stdout_copy(char* buf, long cap) { fflush(stdout); if (!g_cap) return 0; long n = verif_stdout_len(); if (n > cap) n = cap; long r = pread(fileno(g_cap), buf, n, 0); return r < 0 ? 0 : r; }
 }
 int main(int argc, char** argv) {
   if (argc > 1) { FILE* f = fopen(argv[1], "r"); long v; while (f && fscanf(f, "%ld", &v) == 1) g_vec.push_back(v); if (f) fclose(f); }
   if (argc > 2 && chdir(argv[2]) != 0) { perror("chdir"); return 79; }
+  g_proto = fdopen(dup(1), "w"); setvbuf(g_proto, NULL, _IOLBF, 0);
   setvbuf(stdout, NULL, _IOLBF, 0);
   harness_main();
-  printf("DONE fails=%d\n", g_fail);
+  fprintf(g_proto, "DONE fails=%d\n", g_fail); fflush(g_proto);
   return g_fail ? 2 : 0;
 }
